@@ -215,11 +215,11 @@ Proof. intros H. unfold apply_o. apply unapply_o_same. congruence. Qed.
 
 Lemma wt_uptodate_refl o : wt_uptodate o o = true.
 Proof. destruct o; cbn [wt_uptodate]; [apply oblob_eqb_refl|reflexivity]. Qed.
-Lemma pop_path_keep o x w : pop_path o x o w = PKeep.
+Lemma pop_path_keep ig o x w : pop_path ig o x o w = PKeep.
 Proof. unfold pop_path. now rewrite oblob_eqb_refl. Qed.
-Lemma pop_path_take o y : o <> y -> pop_path o o y o = PTake y.
+Lemma pop_path_take ig o y : o <> y -> pop_path ig o o y o = PTake y.
 Proof.
-  intros H. unfold pop_path.
+  intros H. unfold pop_path, wt_ok.
   rewrite (oblob_neq y o) by congruence. rewrite (oblob_neq _ _ H), oblob_eqb_refl, wt_uptodate_refl. reflexivity.
 Qed.
 
@@ -244,7 +244,7 @@ Proof.
   { intros p. destruct (oblob_eqb_spec (tget (s_base e) p) (tget (s_index e) p)) as [E|N].
     - rewrite E. apply apply_o_same.
     - destruct (Hstg p N) as [-> _]. now apply apply_o_diff. }
-  assert (Hpm : forall p, pop_path (tget (s_base e) p) (tget (g_index g) p) (tget (s_index e) p) (tget (g_wt g) p)
+  assert (Hpm : forall p, pop_path (ignored p) (tget (s_base e) p) (tget (g_index g) p) (tget (s_index e) p) (tget (g_wt g) p)
                 = if oblob_eqb (tget (s_base e) p) (tget (s_index e) p) then PKeep else PTake (tget (s_index e) p)).
   { intros p. destruct (oblob_eqb_spec (tget (s_base e) p) (tget (s_index e) p)) as [E|N].
     - rewrite <- E. apply pop_path_keep.
@@ -1022,4 +1022,146 @@ Proof.
   - destruct (tget (g_index g) p) as [y|] eqn:E2; [|reflexivity].
     assert (Hi : In p (tkeys (g_wt g) ++ tkeys (g_index g))) by (apply in_or_app; right; eapply tget_some_in; eauto).
     specialize (H p Hi). rewrite Hp, E1, E2 in H. cbn [negb orb oblob_eqb] in H. discriminate.
+Qed.
+
+(* ---- read-only commands, for EVERY Git state -------------------------------------------------- *)
+Lemma pop_done_spec g e rest g3 :
+  g_stash g = e :: rest -> stash_pop_index g = Done g3 ->
+  frame g g3 /\ g_stash g3 = rest /\
+  (forall p, tget (g_wt g3) p =
+     match pop_path (ignored p) (tget (s_base e) p) (tget (g_index g) p) (tget (s_wt e) p) (tget (g_wt g) p) with
+     | PTake v => v | _ => tget (g_wt g) p end) /\
+  (negb (tree_eqb (s_base e) (s_index e) || tree_eqb (g_index g) (s_index e)) = true ->
+   forall p, tget (g_index g3) p =
+     get_or (apply_o (tget (s_base e) p) (tget (s_index e) p) (tget (g_index g) p)) (tget (g_index g) p)).
+Proof.
+  intros Hst. unfold stash_pop_index. rewrite Hst. cbv zeta.
+  set (ks := tkeys (s_base e) ++ tkeys (s_index e) ++ tkeys (s_wt e) ++ tkeys (g_index g)).
+  assert (Hout : forall p, mem p ks = false ->
+            tget (s_base e) p = None /\ tget (s_index e) p = None /\ tget (s_wt e) p = None /\ tget (g_index g) p = None).
+  { intros p Hm. apply mem_false in Hm. unfold ks in Hm. rewrite !in_app_iff in Hm.
+    rewrite !tget_notin by tauto. auto. }
+  destruct (negb (tree_eqb (s_base e) (s_index e) || tree_eqb (g_index g) (s_index e))) eqn:Ehi; cbn [andb].
+  - destruct (negb (forallb _ ks)); [discriminate|].
+    destruct (negb (tree_eqb (g_index g) (head_tree g))); [discriminate|].
+    destruct (existsb _ ks); [discriminate|]. destruct (existsb _ ks); [discriminate|].
+    intros [= <-]. split; [repeat split|]. split; [reflexivity|]. split.
+    + intros p. cbn [g_wt set_stash set_index set_wt]. rewrite tget_upd.
+      destruct (mem p ks) eqn:Em; [reflexivity|]. destruct (Hout p Em) as (-> & _ & -> & ->). reflexivity.
+    + intros _ p. cbn [g_index set_stash set_index set_wt]. rewrite tget_upd.
+      destruct (mem p ks) eqn:Em; [reflexivity|]. destruct (Hout p Em) as (-> & -> & _ & ->). reflexivity.
+  - destruct (existsb _ ks); [discriminate|]. destruct (existsb _ ks); [discriminate|].
+    intros [= <-]. split; [repeat split|]. split; [reflexivity|]. split; [|discriminate].
+    intros p. cbn [g_wt set_stash set_index set_wt]. rewrite tget_upd.
+    destruct (mem p ks) eqn:Em; [reflexivity|]. destruct (Hout p Em) as (-> & _ & -> & ->). reflexivity.
+Qed.
+
+Lemma push_spec g ok g1 : stash_push_staged g = (ok, g1) -> is_nil (diff_cached g) = false -> ok = true ->
+  g_stash g1 = stash_of g :: g_stash g /\ g_index g1 = head_tree g /\
+  (forall p, tget (g_wt g1) p =
+     if staged_b g p then get_or (unapply_o (tget (head_tree g) p) (tget (g_index g) p) (tget (g_wt g) p)) (tget (g_wt g) p)
+     else tget (g_wt g) p) /\
+  (forall p, staged_b g p = true ->
+     is_some (unapply_o (tget (head_tree g) p) (tget (g_index g) p) (tget (g_wt g) p)) = true).
+Proof.
+  unfold stash_push_staged. destruct (head_id g); [|intros [= <- _] _; discriminate].
+  intros H Hnil. rewrite Hnil in H. revert H.
+  match goal with |- context [if ?c then _ else _] => destruct c eqn:Ef end; [|intros [= <- _]; discriminate].
+  intros [= _ <-] _. split; [reflexivity|]. split; [reflexivity|]. split.
+  - intros p. cbn [g_wt set_index set_wt set_stash]. now rewrite tget_upd, mem_diff_cached.
+  - intros p Hs. rewrite forallb_forall in Ef. apply Ef. rewrite <- mem_diff_cached in Hs. now apply mem_spec.
+Qed.
+
+Lemma is_some_get_or {A} (o : option A) d v : o = Some v -> get_or o d = v.
+Proof. now intros ->. Qed.
+
+Lemma auto_commit_clean tb g ok g' t :
+  managed_clean g -> git_auto_commit true tb g = (ok, g', t) ->
+  g_log g' = g_log g /\ (ok = true -> managed_clean g').
+Proof.
+  intros Hc. unfold git_auto_commit, stash_user_staged_files.
+  destruct (is_nil (diff_cached g)) eqn:Hnil.
+  - assert (Hns : forall p, staged_b g p = false) by now apply diff_cached_nil.
+    assert (Hih : teq (g_index g) (head_tree g)) by (intros p; symmetry; now apply staged_b_false).
+    destruct (add_and_commit tb g) as [[[ok1 fin] g2] t2] eqn:Ea. cbn [andb]. intros [= <- <- <-].
+    destruct (aac_spec _ _ _ _ _ _ Hih Ea) as (A & B & C & D & E & F & G).
+    destruct G as [G1 G2].
+    { intros p. destruct (add_change g p) eqn:Hac; [|reflexivity]. apply add_change_spec in Hac.
+      destruct Hac as [Hm Hd]. elim Hd. now apply Hc. }
+    split; [exact G1|]. intros _. now apply (managed_clean_ext g).
+  - destruct (stash_push_staged g) as [okp g1] eqn:Ep. assert (F1 := push_frame _ _ _ Ep).
+    destruct okp; [|intros [= <- <- <-]; split; [apply F1|discriminate]].
+    destruct (push_spec _ _ _ Ep Hnil eq_refl) as (S1 & I1 & W1 & U1).
+    assert (Hm1 : forall p, managed p = true -> tget (g_wt g1) p = tget (head_tree g) p).
+    { intros p Hp. rewrite W1. destruct (staged_b g p) eqn:Es.
+      - apply is_some_get_or. rewrite (Hc p Hp). apply unapply_o_same.
+        rewrite staged_b_neq in Es. apply negb_true_iff in Es. now apply oblob_eqb_false.
+      - rewrite (Hc p Hp). symmetry. now apply staged_b_false. }
+    assert (Hih1 : teq (g_index g1) (head_tree g1)).
+    { intros p. now rewrite I1, (frame_head_tree _ _ F1). }
+    destruct (add_and_commit tb g1) as [[[ok1 fin] g2] t2] eqn:Ea. cbn [andb orb].
+    destruct (aac_spec _ _ _ _ _ _ Hih1 Ea) as (A & B & C & D & E & F & G).
+    destruct G as [G1 G2].
+    { intros p. destruct (add_change g1 p) eqn:Hac; [|reflexivity]. apply add_change_spec in Hac.
+      destruct Hac as [Hm Hd]. elim Hd. now rewrite I1, (Hm1 p Hm). }
+    unfold unstash. assert (F3 := pop_frame g2).
+    destruct (stash_pop_index g2) as [g3|g3|] eqn:Epop; intros [= <- <- <-].
+    + split; [destruct F3 as (_ & _ & _ & ->); rewrite G1; apply F1|]. intros _.
+      assert (Hst2 : g_stash g2 = stash_of g :: g_stash g) by now rewrite B, S1.
+      destruct (pop_done_spec _ _ _ _ Hst2 Epop) as (_ & _ & W3 & I3).
+      cbn [stash_of s_base s_index s_wt] in W3, I3. rewrite G2, I1 in W3, I3.
+      assert (Hhi : negb (tree_eqb (head_tree g) (g_index g) || tree_eqb (head_tree g) (g_index g)) = true).
+      { apply is_nil_false_ex in Hnil. destruct Hnil as [p0 Hp0]. apply mem_spec in Hp0.
+        rewrite mem_diff_cached, staged_b_neq in Hp0. apply negb_true_iff, oblob_eqb_false in Hp0.
+        now rewrite (tree_eqb_nteq _ _ p0 Hp0). }
+      specialize (I3 Hhi). intros p Hp. rewrite W3, I3, A, (Hm1 p Hp).
+      destruct (oblob_eqb_spec (tget (head_tree g) p) (tget (g_index g) p)) as [Eq|Nq].
+      * rewrite <- Eq, pop_path_keep, apply_o_same. reflexivity.
+      * rewrite (pop_path_take _ _ _ Nq), (apply_o_diff _ _ Nq). reflexivity.
+    + split; [destruct F3 as (_ & _ & _ & ->); rewrite G1; apply F1|]. rewrite andb_false_r. discriminate.
+    + split; [rewrite G1; apply F1|]. rewrite andb_false_r. discriminate.
+Qed.
+
+Lemma handle_clean s g ok g' t :
+  fixed_P20 s = true -> managed_clean g -> handle_git_automation s g = (ok, g', t) ->
+  g_log g' = g_log g /\ (ok = true -> managed_clean g').
+Proof.
+  intros Hfx Hc. unfold handle_git_automation.
+  destruct (use_git s); [|intros [= <- <- <-]; auto].
+  destruct (auto_commit s); [rewrite Hfx; now apply auto_commit_clean|].
+  destruct (auto_stage s); [|intros [= <- <- <-]; auto].
+  unfold git_auto_stage. destruct (git_add g) as [[ok1 out] g1] eqn:Ea. intros [= <- <- <-].
+  destruct (git_add_spec _ _ _ _ Ea) as (Fa & Wa & Sa & Onil & Ia & Ma & Oa).
+  split; [apply Fa|]. intros _ p Hp. rewrite Wa, Ia. destruct (mem p out); [reflexivity|now apply Hc].
+Qed.
+
+Lemma run_calls_readonly_all s : fixed_P20 s = true -> forall cs k g st g' t,
+  managed_clean g -> (forall d b, In (d, b) cs -> d = []) ->
+  run_calls s cs k g = (st, g', t) -> g_log g' = g_log g.
+Proof.
+  intros Hfx cs. induction cs as [|[d b] r IH]; intros k g st g' t Hc Hcs; cbn [run_calls].
+  - now intros [= _ <- _].
+  - rewrite (Hcs d b (or_introl eq_refl)). change (apply_delta [] g) with (set_wt g (g_wt g)).
+    assert (Hc1 : managed_clean (set_wt g (g_wt g))) by (apply (managed_clean_ext g); [reflexivity|reflexivity|exact Hc]).
+    assert (Hcs' : forall d b, In (d, b) r -> d = []) by (intros d0 b0 Hi; apply (Hcs d0 b0); now right).
+    destruct b.
+    + destruct (handle_git_automation s (set_wt g (g_wt g))) as [[ok g2] t2] eqn:Eh.
+      destruct (handle_clean _ _ _ _ _ Hfx Hc1 Eh) as (Hl2 & Hc2).
+      destruct ok.
+      * destruct (run_calls s r (S k) g2) as [[st3 g3] t3] eqn:Er. intros [= _ <- _].
+        rewrite (IH _ _ _ _ _ (Hc2 eq_refl) Hcs' Er). exact Hl2.
+      * intros [= _ <- _]. exact Hl2.
+    + intros Er. now rewrite (IH _ _ _ _ _ Hc1 Hcs' Er).
+Qed.
+
+Lemma dispatch_readonly_all_lemma s c g :
+  fixed_P20 s = true -> from_ref s = None -> c_delta c = [] -> c_delta2 c = [] -> managed_clean g ->
+  g_log (snd (fst (dispatch s c g))) = g_log g.
+Proof.
+  intros Hfx Hfr Hd1 Hd2 Hc. unfold dispatch. rewrite Hfr. cbn [negb].
+  destruct (c_ok c); cbn [negb].
+  2:{ cbn [fst snd]. apply (apply_delta_spec (c_delta c) g). }
+  destruct (run_calls s (calls s c) 0 g) as [[st g1] t1] eqn:Er. cbn [fst snd].
+  eapply (run_calls_readonly_all s Hfx); [exact Hc| |exact Er].
+  intros d b Hi. apply calls_deltas in Hi. destruct Hi as [-> | [-> | -> ]]; auto.
 Qed.
